@@ -15,7 +15,7 @@ RULE = (
     "and label for label; distinct by hash of (table entries, string) / program text; non-trivial = at least one table entry matched"
 )
 ASSUMPTIONS = [
-    "table lines are HEX=text or HEX:N=text (N parameter bytes follow the code when decoding) with an even number of hex digits; the decoder "
+    "table files end their lines with LF or (15 %) CR LF; table lines are HEX=text or HEX:N=text (N parameter bytes follow the code when decoding) with an even number of hex digits; the decoder "
     "round trip is judged for strings that match no entry with parameters",
     "strings contain no newline and no backslash except in \\' (an escaped quote inside a quoted string: backslash and quote both stay characters "
     "of the string); escapes are [0xN] / [0xNN] with value < 256",
@@ -131,6 +131,10 @@ def run_api(shard: dict, res: Res) -> None:
         entries = gen_entries(rng)
         ref = RefTable(entries)
         text = render_table(entries)
+        crlf = rng.random() < 0.15
+        if crlf:
+            text = text.replace("\n", "\r\n")      # table files written by Windows tools end their lines with CR LF
+            res.count("tables_with_crlf_line_ends")
         with Scratch({"t.tbl": text}):
             try:
                 table = Table("t.tbl")
@@ -140,7 +144,7 @@ def run_api(shard: dict, res: Res) -> None:
         res.see("table_styles", (len(entries), max(len(e[1]) for e in entries), max(len(e[0]) for e in entries), ref.codes_unique_prefix_free(), bool(ref.params)))
         for si in range(shard["strings"]):
             s = gen_string(rng, ref)
-            check_pair(res, table, ref, entries, s)
+            check_pair(res, table, ref, entries, s, crlf)
             if ti == 0 and si < 2:
                 try:
                     res.sample({"kind": "api", "table": text[:200], "string": s, "bytes": ref.to_bytes(s).hex()})
@@ -148,8 +152,8 @@ def run_api(shard: dict, res: Res) -> None:
                     pass
 
 
-def check_pair(res: Res, table, ref: RefTable, entries, s: str) -> None:
-    wit = {"kind": "api", "entries": ser(entries), "s": s}
+def check_pair(res: Res, table, ref: RefTable, entries, s: str, crlf: bool = False) -> None:
+    wit = {"kind": "api", "entries": ser(entries), "s": s, "crlf": crlf}
     try:
         toks = ref.tokens(s)
     except Unspecified:
@@ -225,7 +229,7 @@ def gen_program(rng: random.Random) -> dict:
                 out.append(["text", counter[0], rng.choice(["a", "ab", "abc", "x[0x41]y"])])
         return out
 
-    return {"tables": tables, "tree": body(0, False)}
+    return {"tables": tables, "tree": body(0, False), "crlf": rng.random() < 0.15}
 
 
 def quoted(s: str) -> str:
@@ -313,6 +317,8 @@ def expected_bytes(prog: dict) -> bytes:
 def check_program(res: Res, prog: dict) -> None:
     src = render_program(prog)
     files = {name: render_table(deser(ents)) for name, ents in prog["tables"].items()}
+    if prog.get("crlf"):
+        files = {k: v.replace("\n", "\r\n") for k, v in files.items()}
     wit = {"kind": "prog", "prog": prog, "src": src}
     try:
         exp = expected_bytes(prog)
@@ -374,9 +380,10 @@ def replay(w: dict) -> Res:
         from script import Table
 
         entries = deser(w["entries"])
-        with Scratch({"t.tbl": render_table(entries)}):
+        text = render_table(entries)
+        with Scratch({"t.tbl": text.replace("\n", "\r\n") if w.get("crlf") else text}):
             table = Table("t.tbl")
-        check_pair(res, table, RefTable(entries), entries, w["s"])
+        check_pair(res, table, RefTable(entries), entries, w["s"], bool(w.get("crlf")))
     else:
         check_program(res, w["prog"])
     return res
